@@ -157,6 +157,31 @@ let handle (toks : string list) : string =
     Printf.sprintf "enc=%s dec=%s cid=%s sid=%s cs=%s ekiv=%s dkiv=%s"
       (hex_of_bytes ch.enc_key) (hex_of_bytes ch.dec_key) (hex_of_bytes ch.client_key_id)
       (hex_of_bytes ch.server_key_id) (hex_of_bytes cs) (show (cipher_params ch.enc_key cs)) (show (cipher_params ch.dec_key cs))
+  | "boc_ser" :: idx :: crc :: cache :: rest ->
+    let (ns, _) = parse_dag rest in
+    (match build_dag ns with
+     | Err e -> "err " ^ err_name e
+     | Ok ks -> show_res hex_of_bytes (to_boc ks.(Array.length ks - 1) (idx = "1") (crc = "1") (cache = "1")))
+  | "boc_order" :: rest ->
+    let (ns, _) = parse_dag rest in
+    (match build_dag ns with
+     | Err e -> "err " ^ err_name e
+     | Ok ks -> "ok " ^ String.concat "," (List.map (fun k -> String.sub (hex_of_bytes (k_hash k)) 0 12) (order ks.(Array.length ks - 1))))
+  | ["boc_parse"; h] ->
+    (match deserialize sha256 (bytes_of_hex h) with
+     | Err e -> "err " ^ err_name e
+     | Ok ks -> Printf.sprintf "ok %d %s" (List.length ks) (String.concat " " (List.map (fun k -> cell_text (k_tree k)) ks)))
+  | ["boc_parse_hash"; h] ->
+    (match deserialize sha256 (bytes_of_hex h) with
+     | Err e -> "err " ^ err_name e
+     | Ok ks -> Printf.sprintf "ok %d %s" (List.length ks) (String.concat " " (List.map (fun k -> hex_of_bytes (k_hash k)) ks)))
+  | ["s_boc"; h] ->
+    let d = bytes_of_hex h in
+    (match s_decode d with
+     | None -> "none"
+     | Some roots ->
+       let nd = (match s_all_cells d with Some cs -> (if nodup_trees cs then "1" else "0") ^ Printf.sprintf " ncells=%d" (List.length cs) | None -> "?") in
+       Printf.sprintf "some %d %s nodup=%s" (List.length roots) (String.concat " " (List.map cell_text roots)) nd)
   | "senc" :: rest ->
     let (ns, ops) = parse_dag rest in
     let trees = tree_of_dag ns in
